@@ -17,7 +17,7 @@ R-C18-5  (syntax) interpolated expressions are re-lexed verbatim (`tokenize_dire
          brace counter goes from 0 to 1 as `state.pos.offset_pos(string.len() + 1)`.
 """
 import re
-from .common import walk, src, strip, AnchorError, must_call_blocks
+from .common import idents_in, walk, src, strip, AnchorError, must_call_blocks
 from .lexer import LexerModel
 
 VARIABLE_DISPLAY = {
@@ -123,6 +123,57 @@ def run(chk, facts):
                f"{which} loop: on each of {n_paths} paths every consumed char is pushed into the lexeme" + (" (except the `E`, which Display re-adds)" if which == "number" else "") if ok else
                (f"{which} loop: a path ({bad[2]}) consumes {bad[0]} char(s) but pushes {bad[1]}: the printed token is not what was consumed, so every later column is shifted" if bad else
                 f"{which} loop: {n_paths} paths, {n_unpushed} unpushed `E` paths"), loc)
+
+    # the token that is created carries the accumulated lexeme *unchanged*: Token::Int(number) / Real(number) / ENum(number, exp) /
+    # as_op_or_id(id_or_operation). (Filling in a default - `if exp.is_empty() { "0" }` - here makes the token print wider than the
+    # text it was read from; defaults belong to the code generator.) Decided on the symbolic value of the argument of `create(..)`.
+    from . import symeval as _sv
+    for label, arm in lm.complex_arms.items():
+        body_s = src(arm["body"]).replace(" ", "")
+        if "e_num" not in body_s and "id_or_operation" not in body_s:
+            continue
+        which = "number" if "e_num" in body_s else "identifier"
+        creates = [n for n in walk(arm["body"]) if n.get("k") == "call" and n["f"].get("k") == "path" and n["f"]["p"] == "create" and len(n["args"]) == 2]
+        se_ = _sv.SymEval(syn, "parse::lex")
+        bad_tok = None
+        n_leaves = 0
+        env_ = {v_: ("var", v_) for v_ in ("number", "exp", "float", "e_num", "id_or_operation", "state")}
+        # lets before the create (e.g. `let literal = match (e_num, float) {..}`)
+        if arm["body"].get("k") == "block":
+            for st_ in arm["body"]["stmts"]:
+                if st_.get("k") == "local" and st_.get("init") is not None and st_["pat"].get("k") == "pident" and not st_["pat"].get("mut"):
+                    env_[st_["pat"]["name"]] = se_.ev(st_["init"], env_)
+
+        def leaves(v_):
+            if v_[0] == "ite":
+                yield from leaves(v_[2])
+                yield from leaves(v_[3])
+            elif v_[0] == "match":
+                for _p, _g, x_ in v_[2]:
+                    yield from leaves(x_)
+            else:
+                yield v_
+        if which == "identifier":
+            # the keyword table is applied to the accumulated word as it is (the table itself: R-C18-3)
+            from .common import inline_lets as _il
+            cr2 = [n for n in walk(_il(arm["body"])) if n.get("k") == "call" and n["f"].get("k") == "path" and n["f"]["p"] == "create" and len(n["args"]) == 2]
+            okc = bool(cr2) and all(strip(c_["args"][1]).get("k") == "call" and src(strip(c_["args"][1])["f"]) == "as_op_or_id" and
+                                    [src(strip(a_)) for a_ in strip(c_["args"][1])["args"]] == ["id_or_operation"] for c_ in cr2)
+            chk.ob("R-C18-1", "token-carries-lexeme:identifier", okc, "identifier arm: the keyword table is applied to the accumulated word unchanged" if okc else
+                   "identifier arm: the token is no longer `as_op_or_id(<the accumulated word>)`: its printed form differs from the characters consumed", loc)
+            continue
+        for c_ in creates:
+            for lf in leaves(se_.ev(c_["args"][1], env_)):
+                n_leaves += 1
+                okl = (lf[0] == "call" and lf[1] in ("Token::Int", "Token::Real") and lf[2] == [("var", "number")]) or \
+                      (lf[0] == "call" and lf[1] == "Token::ENum" and lf[2] == [("var", "number"), ("var", "exp")]) or \
+                      (lf[0] == "call" and lf[1] == "as_op_or_id" and lf[2] == [("var", "id_or_operation")])
+                if not okl:
+                    bad_tok = bad_tok or _sv.show(lf)[:90]
+        ok = bad_tok is None and n_leaves >= (3 if which == "number" else 1)
+        chk.ob("R-C18-1", f"token-carries-lexeme:{which}", ok, f"{which} arm: the created token carries the accumulated text unchanged ({n_leaves} form(s))" if ok else
+               f"{which} arm: the token is created as `{bad_tok}` - not from the accumulated text as it was read: its printed form (and so its width) differs from the characters "
+               "consumed, and every later token on the line is shifted", loc)
 
     # ---------------- R-C18-2 ----------------
     try:
@@ -266,6 +317,18 @@ def run(chk, facts):
         chk.ob("R-C18-5", "relex-verbatim", ok, f"the captured text is re-lexed as it is (`tokenize_direct({arg})`)" if ok else
                f"the interpolated text is transformed before re-lexing (`tokenize_direct({arg})`): the recorded offset no longer matches its first character", loc)
         from .common import inline_lets
+        # .. and the re-lexer itself reads its input as it is: in `tokenize` / `tokenize_direct` the character iterator is `input.chars()`
+        # and nothing textual (trim, replace ..) is applied to the input - the recorded offset is that of the first character
+        for tname in ("tokenize", "tokenize_direct"):
+            tf_ = syn.one_fn(tname, mod="parse::lex")
+            ops_ = [n["m"] for n in walk(tf_["body"]) if n.get("k") == "mcall" and "input" in idents_in(n["recv"]) and
+                    n["m"] in ("trim", "trim_start", "trim_end", "trim_matches", "trim_start_matches", "trim_end_matches", "replace", "replacen", "strip_prefix", "strip_suffix",
+                               "to_lowercase", "to_uppercase", "split", "lines", "skip", "take", "filter", "rev")]
+            chars_ = [n for n in walk(tf_["body"]) if n.get("k") == "mcall" and n["m"] == "chars"]
+            okt = not ops_ and len(chars_) == 1 and src(strip(chars_[0]["recv"])) == "input"
+            chk.ob("R-C18-5", f"input-as-is:{tname}", okt, f"{tname} iterates `input.chars()` over the text as it is" if okt else
+                   f"{tname} transforms its input before lexing ({ops_ or src(chars_[0]['recv']) if chars_ else 'no chars()'}): the positions it reports are relative to the "
+                   "transformed text, the offsets recorded by the caller to the original one", facts.loc_of(tf_))
         nodes = list(walk(inline_lets(strarm["body"])))     # `let start = lex.pos.offset(offset).start; Lex::new(start, ..)` alike
         # every Lex::new in the string arm (they build the nested tokens) starts at <token>.pos.offset(<recorded offset>).start, where the
         # offset is the one bound together with the re-lexed text (tuple pattern of the closure / loop over `exprs`)
